@@ -86,6 +86,23 @@ class StmtMixin:
             return assign_all(v, s)
 
         def assign_all(v, s):
+            if isinstance(v, EmptyList) and any(isinstance(t, ast.Subscript) for t in stmt.targets):
+                # d[k] = name = []   : the local name aliases the list stored in the dict
+                handle = None
+                for t in stmt.targets:
+                    if isinstance(t, ast.Subscript):
+                        res = []
+                        self.ev(t.value, s, lambda base, s1: self.ev(t.slice, s1, lambda idx, s2: res.append((base, idx)) or []))
+                        base, idx = res[0]
+                        if not isinstance(base, DictFld) or base.vty[0] != "list":
+                            raise Unsupported("empty list stored into %r" % (base,))
+                        self.dict_set(s, base, idx, v)
+                        from .containers import DictEntryList
+                        handle = DictEntryList(base, coerce(idx, base.kty).t, base.vty[1])
+                for t in stmt.targets:
+                    if not isinstance(t, ast.Subscript):
+                        self.assign_target(t, handle, s)
+                return [(N_, s)]
             if isinstance(v, EmptyList) and all(isinstance(t, ast.Name) for t in stmt.targets):
                 # a local list that will be filled by the code: elements default to object references
                 v = self.new_cell(s, self.empty_list(ANY), v.kind)
